@@ -38,6 +38,7 @@ namespace cgreen {
 /* Utility: */
 int get_significant_figures(void);
 void significant_figures_for_assert_double_are(int figures);
+bool doubles_are_equal(double tried, double expected);
 
 #include <cgreen/legacy.h>
 
